@@ -82,9 +82,9 @@ impl Property for C05 {
             corpus = corpus.into_iter().enumerate().filter(|(i, _)| i % 2 == 0).map(|(_, c)| c).collect();
         }
         vec![
-            Family::random("hostile", tier.n(6000, 120_000), fam_hostile),
-            Family::random("docgen", tier.n(5000, 100_000), fam_docgen),
-            Family::random("union", tier.n(6000, 120_000), fam_union),
+            Family::random("hostile", tier.n(24_000, 120_000), fam_hostile),
+            Family::random("docgen", tier.n(20_000, 100_000), fam_docgen),
+            Family::random("union", tier.n(24_000, 120_000), fam_union),
             Family::fixed("corpus", corpus),
         ]
     }
